@@ -11,22 +11,34 @@ import time
 import vf
 vf.use_repo()
 from ak import conn_http  # noqa: E402
+from ak.mcaller_http import MCallerHttp, method_http  # noqa: E402
 from vf.core import Inconclusive, sig_of  # noqa: E402
 
 # building the real urllib opener loads the system certificates (35 ms per connection); the checks
 # replace the opener by a recording fake anyway, so its construction is stubbed when possible
+_CURRENT_OPENER = [None]
+
+
+class _OpenerProxy:
+    """what every connection implementation object gets as its opener: requests of implementation objects
+    the code creates behind the scenes reach the recording opener of the running scenario as well"""
+
+    def open(self, request):
+        return _CURRENT_OPENER[0].open(request)
+
+
 _impl = getattr(conn_http, "_HttpConnImpl", None)
 if _impl is not None and hasattr(_impl, "_make_opener"):
-    _impl._make_opener = staticmethod(lambda *args, **kwargs: None)
+    _impl._make_opener = staticmethod(lambda *args, **kwargs: _OpenerProxy())
 
 ID = "C16"
 LEVEL = "exploration"
 RULE = ("workload 1 (stress): rounds of 4-8 threads x 40-60 requests over one base connection and connections "
         "derived from it (BAuthConn, path-prefix HttpConn, a connection derived from a derived one, a connection "
-        "whose adapter supplies the caller's own ids), all five verbs, bodies of "
+        "whose adapter supplies the caller's own ids, the connections an MCallerHttp clone hands to its methods per component), all five verbs, bodies of "
         "every kind, params, raw responses, every 10th request failing with HTTPError (it still consumes its number), "
         "a quarter of the rounds with DEBUG logging on, every 10th "
-        "request carrying its own X-Request-ID, three in ten re-using a headers dict the caller keeps; switch interval 1 microsecond and sys.monitoring LINE events "
+        "request carrying its own X-Request-ID (every 20th the empty string), three in ten re-using a headers dict the caller keeps; switch interval 1 microsecond and sys.monitoring LINE events "
         "local to _generate_request_id and do_request yielding the GIL (sleep(0)) with probability 1/2. "
         "Workload 2 (bounded schedule enumeration, pre-emption bound 1): for EVERY bytecode offset of "
         "_generate_request_id thread A is held at that offset by an INSTRUCTION-event callback until thread B's "
@@ -123,8 +135,9 @@ def judge_history(ctx, reqs, n_own_expected, own_expected, case, tids=None, adap
     if missing:
         ctx.violation("request-without-id", {"count": len(missing)}, case)
         return None
-    own = [x for _, x in ids if x.startswith("own-")]
-    gen = [(tid, x) for tid, x in ids if not x.startswith("own-")]
+    # (the caller's own ids: "own-..." and the empty string)
+    own = [x for _, x in ids if x == "" or x.startswith("own-")]
+    gen = [(tid, x) for tid, x in ids if not (x == "" or x.startswith("own-"))]
     own_expected = list(own_expected) + list(adapter_ids or [])
     if sorted(own) != sorted(own_expected):
         ctx.violation("caller-supplied-id-not-sent-unchanged-exactly-once",
@@ -167,16 +180,57 @@ class IdAdapter(conn_http.RequestAdapter):
         req_args.headers['X-Request-ID'] = rid
 
 
+class Caller16(MCallerHttp):
+    """a method caller: its methods get their connections (per component, with a path prefix) from get_conn()"""
+    _HTTP_PREFIX_MAP = {'billing': '/api/billing', 'plain': ''}
+
+    @method_http('basic')
+    def ping(self, **kw):
+        """method without a component"""
+        return self.get_conn().get("/p", **kw)
+
+    @method_http('basic', 'billing')
+    def invoice(self, **kw):
+        """method of a component with a path prefix"""
+        return self.get_conn().post("/p", **kw)
+
+    @method_http('basic', 'plain')
+    def plain(self, **kw):
+        """method of a component without a prefix"""
+        return self.get_conn().put("/p", **kw)
+
+
+class CallerConn:
+    """makes the methods of a method caller look like the verbs of a connection (for the workloads)"""
+
+    def __init__(self, caller):
+        self.caller = caller
+
+    def get(self, path, **kw):
+        return self.caller.ping(**kw) if path != "/fail" else self.caller.http_conn.get(path, **kw)
+
+    def post(self, path, **kw):
+        return self.caller.invoice(**kw) if path != "/fail" else self.caller.http_conn.post(path, **kw)
+
+    def put(self, path, **kw):
+        return self.caller.plain(**kw) if path != "/fail" else self.caller.http_conn.put(path, **kw)
+
+    delete = get
+    patch = post
+
+
 def mk_conns():
     base = conn_http.HttpConn("http://h")
     op = Opener()
+    _CURRENT_OPENER[0] = op
     base.conn_impl.opener = op
     d1 = conn_http.BAuthConn(base, "u", "p")
     d2 = conn_http.HttpConn(base, adapters=conn_http.RequestAdapterAddPathPrefix("/x"))
     d3 = conn_http.HttpConn(d2, adapters=conn_http.RequestAdapterAddPathPrefix("/y"))
     op.adapter_ids = []
     d4 = conn_http.HttpConn(base, adapters=[IdAdapter(op.adapter_ids)])
-    return op, [base, d1, d2, d3, d4]
+    d5 = CallerConn(Caller16(base).clone(conn_http.BAuthConn.Adapter("u", "p")))
+    return op, [base, d1, d2, d3, d4, d5]
 
 
 def codes():
@@ -214,8 +268,9 @@ def first_requests_race(ctx, seed, rounds):
             def worker(i, conns=conns, start=start, errors=errors):
                 try:
                     start.wait()
-                    conns[i % 4].get("/first")
-                    conns[(i + 1) % 4].get("/second")
+                    sel = [conns[j] for j in (0, 1, 2, 3, 5)]
+                    sel[(i + r) % 5].get("/first")
+                    sel[(i + r + 1) % 5].get("/second")
                 except Exception as err:
                     errors.append(repr(err))
 
@@ -241,7 +296,7 @@ def first_requests_race(ctx, seed, rounds):
 
 
 def uses_id_adapter(thread_index):
-    return thread_index % 5 == 4      # the fifth connection of mk_conns()
+    return thread_index % 6 == 4      # the fifth connection of mk_conns()
 
 
 def stress_round(ctx, seed, interleavings, case_no):
@@ -298,7 +353,7 @@ def stress_round(ctx, seed, interleavings, case_no):
                 elif shape == 4:
                     kw['raw_response'] = True
                 if k % 10 == 3 and not uses_id_adapter(i):
-                    verb("/p", headers={'X-Request-ID': f"own-{i}-{k}"}, **kw)
+                    verb("/p", headers={'X-Request-ID': f"own-{i}-{k}" if k % 20 == 3 else ""}, **kw)
                 elif k % 10 in (5, 6, 8):
                     verb("/p", headers=reused, **kw)
                 elif k % 10 == 9 and 'params' not in kw:
@@ -313,7 +368,7 @@ def stress_round(ctx, seed, interleavings, case_no):
 
     for i in range(n_threads):
         if not uses_id_adapter(i):
-            own_expected.extend(f"own-{i}-{k}" for k in range(n_req) if k % 10 == 3)
+            own_expected.extend((f"own-{i}-{k}" if k % 20 == 3 else "") for k in range(n_req) if k % 10 == 3)
     threads = [threading.Thread(target=worker, args=(i,)) for i in range(n_threads)]
     try:
         for t in threads:
